@@ -136,7 +136,7 @@ pub fn run(_scenario: u32, choices: &[u8], _strict: bool) -> Outcome {
       }
       3 => Op::Cleanup,
       4 => Op::Dispose(p),
-      _ => Op::Endpoint(p, c.pick(2), c.bool()),
+      _ => Op::Endpoint(p, c.pick(3), c.bool()),
     });
   }
   o.sample = format!("leases={:?} ops={ops:?}", ps.iter().map(|p| p.lease_us).collect::<Vec<_>>());
@@ -285,9 +285,9 @@ pub fn run(_scenario: u32, choices: &[u8], _strict: bool) -> Outcome {
         let guid = GUID::new(
           m.prefix,
           if *is_reader {
-            rig::user_reader_eid(*e as u8 + 1, true)
+            rig::peer_eid(*e as u8, true)
           } else {
-            rig::user_writer_eid(*e as u8 + 1, true)
+            rig::peer_eid(*e as u8, false)
           },
         );
         if *is_reader {
@@ -316,12 +316,12 @@ pub fn run(_scenario: u32, choices: &[u8], _strict: bool) -> Outcome {
       let readers: BTreeSet<(usize, bool)> = db
         .readers_on_topic_and_participant(topic, m.prefix)
         .iter()
-        .map(|d| (usize::from(d.reader_proxy.remote_reader_guid.entity_id.entity_key[2]) - 1, true))
+        .map(|d| (usize::from(d.reader_proxy.remote_reader_guid.entity_id.entity_key[2]), true))
         .collect();
       let writers: BTreeSet<(usize, bool)> = db
         .writers_on_topic_and_participant(topic, m.prefix)
         .iter()
-        .map(|d| (usize::from(d.writer_proxy.remote_writer_guid.entity_id.entity_key[2]) - 1, false))
+        .map(|d| (usize::from(d.writer_proxy.remote_writer_guid.entity_id.entity_key[2]), false))
         .collect();
       let got: BTreeSet<(usize, bool)> = readers.union(&writers).copied().collect();
       if got != m.visible {
